@@ -299,12 +299,14 @@ impl PidTracking {
         self.modes[slot] = mode;
         self.last_modified_slot = slot as u32;
 
-        self.total_count += 1;
+        // The counters come from shared memory that another (possibly crashed)
+        // process wrote: never overflow on them.
+        self.total_count = self.total_count.saturating_add(1);
         if mode != 2 {
             // Not read-only
-            self.writer_count += 1;
+            self.writer_count = self.writer_count.saturating_add(1);
         }
-        self.generation += 1;
+        self.generation = self.generation.wrapping_add(1);
         self.state = 1;
 
         Some(slot)
